@@ -28,11 +28,11 @@ sys.path.insert(0, os.path.join(os.path.dirname(HERE), 'translate'))
 import pylocks2coq  # noqa: E402
 
 PROP = 'C15'
-REQUIRES = ['Conc.Lang', 'gen.BufferLockGen']
+REQUIRES = ['Common.ListX', 'Conc.Lang', 'gen.BufferLockGen']
 RULE = ('translator self-check: every method of SignalBuffer (table sets == bytecode attribute names; run-time observed '
         'accesses per frame within the table sets; fields seen changing within the computed mutable set). Schedule exploration of '
-        'the real class (quick: 8 writer x reader pairs, <= 1 pre-emption; thorough: all writer x reader pairs on two initial '
-        'states with <= 2 pre-emptions and a subset with <= 3): all line-granular schedules of the two threads. '
+        'the real class (5 writer x 11 reader operations on two initial states; quick: every third pair, <= 1 pre-emption; thorough: <= 2 '
+        'pre-emptions and every 11th pair <= 3): all line-granular schedules of the two threads. '
         'Non-trivial: a method that touches a mutable field or calls another method; an exploration in which the reader was '
         'blocked on the lock or observed both serial outcomes.')
 TRUSTED = ['translate/pylocks2coq.py (AST -> lock-structure table; fail-closed: unclassifiable statements become SOpaque, which no '
@@ -427,10 +427,6 @@ def _pairs():
                 yield {'cap': STATES[st]['cap'], 'init': STATES[st]['init'], 'w': w, 'r': r}
 
 
-QUICK_PAIRS = [('full', 0, 1), ('full', 0, 3), ('full', 2, 0), ('full', 4, 5), ('part', 0, 6), ('part', 3, 2),
-               ('part', 1, 7), ('full', 2, 10)]
-
-
 # ----------------------------------------------------------------------------------------------------
 def cases(tier, rng):
     info = _info()
@@ -438,9 +434,9 @@ def cases(tier, rng):
         yield {'k': 'method', 'name': name}
     yield {'k': 'mutable'}
     if tier == 'quick':
-        for st, wi, ri in QUICK_PAIRS:
-            yield {'k': 'explore', 'bound': 1, 'cap': STATES[st]['cap'], 'init': STATES[st]['init'],
-                   'w': _writers(st)[wi], 'r': _readers(st)[ri]}
+        for i, scn in enumerate(_pairs()):
+            if i % 3 == 0:
+                yield dict(scn, k='explore', bound=1)
     else:
         for i, scn in enumerate(_pairs()):
             yield dict(scn, k='explore', bound=(3 if i % 11 == 0 else 2))
